@@ -250,7 +250,7 @@ def long_run(chk, profiles=None, ops=None, random_units=60, name="long", max_byt
         shutil.rmtree(d, ignore_errors=True)
 
 
-def race_run(chk, processes=100, long_processes=4, threads=16):
+def race_run(chk, processes=100, long_processes=4, threads=16, judge=True):
     """C16: concurrent results equal the sequential ones (pvh race); the sequential ones are judged by TLC"""
     import shutil
     oracle = ensure_oracle()
@@ -273,7 +273,8 @@ def race_run(chk, processes=100, long_processes=4, threads=16):
         chk.add_part("race: fresh processes x barrier-released threads vs sequential reference", dict(summ, wall_s=round(t, 1)))
         chk.cov["evaluations"] += summ["concurrent_calls"] + summ["reference_calls"]
         # the reference side: the same inputs, recorded sequentially and judged by TLC
-        l3_run(chk, "race-inputs", driver="corpus", per_string=6, kinds=["enforce", "enforce", "prepare"], corpus_file=os.path.join(d, "inputs.ndjson"))
+        if judge:
+            l3_run(chk, "race-inputs", driver="corpus", per_string=6, kinds=["enforce", "enforce", "prepare"], corpus_file=os.path.join(d, "inputs.ndjson"))
     finally:
         shutil.rmtree(d, ignore_errors=True)
 
